@@ -82,11 +82,12 @@ pub fn set_member() {
 }
 
 macro_rules! set_op {
-    ($name:ident, $f:ident, $js:literal, $keep_a:expr, $keep_b:expr) => {
+    ($name:ident, $f:ident, $js:literal, $keep_a:expr, $keyf:expr) => {
         #[kani::proof]
         #[kani::unwind(18)]
         pub fn $name() {
-            let k = any_keyf();
+            // the key function is concrete per harness (halves the state space of the merge loops)
+            let k: KeyF = $keyf;
             let a = any_set(&k);
             let b = any_set(&k);
             // reference: merge by key
@@ -126,16 +127,22 @@ macro_rules! set_op {
             check_result(&r.unwrap(), &want, wn);
             kani::cover!(wn >= 3, "result with three elements reached");
             kani::cover!(a.n == CAP && b.n == CAP, "two full sets reached");
-            kani::cover!(matches!(k, KeyF::Half) && a.n > 0 && b.n > 0 && a.e[0] != b.e[0] && (a.e[0] >> 1) == (b.e[0] >> 1), "different elements with the same key reached");
+            kani::cover!(matches!(k, KeyF::Identity) || (a.n > 0 && b.n > 0 && a.e[0] != b.e[0] && (a.e[0] >> 1) == (b.e[0] >> 1)), "different elements with the same key reached (key-function variant)");
         }
     };
 }
-//@harness name=set_union tier=quick timeout=900 unwind=18 desc="std.setUnion: merge by key, ascending, duplicate-free, the element of `a` wins on equal keys" bounds="|a|,|b| <= 3, elements 0..=15, keyF identity or x>>1"
-set_op!(set_union, builtin_set_union, "setUnion", |ea, eb| ea.or(eb), ());
-//@harness name=set_inter tier=quick timeout=900 unwind=18 desc="std.setInter: the elements of `a` whose key occurs in `b`" bounds="|a|,|b| <= 3, elements 0..=15, keyF identity or x>>1"
-set_op!(set_inter, builtin_set_inter, "setInter", |ea, eb| if eb.is_some() { ea } else { None }, ());
-//@harness name=set_diff tier=quick timeout=900 unwind=18 desc="std.setDiff: the elements of `a` whose key does not occur in `b`" bounds="|a|,|b| <= 3, elements 0..=15, keyF identity or x>>1"
-set_op!(set_diff, builtin_set_diff, "setDiff", |ea, eb| if eb.is_none() { ea } else { None }, ());
+//@harness name=set_union tier=quick timeout=1200 unwind=18 desc="std.setUnion: merge by key, ascending, duplicate-free, the element of `a` wins on equal keys; identity key" bounds="|a|,|b| <= 3, elements 0..=15"
+set_op!(set_union, builtin_set_union, "setUnion", |ea, eb| ea.or(eb), KeyF::Identity);
+//@harness name=set_union_keyf tier=quick timeout=1200 unwind=18 desc="std.setUnion: merge by key, ascending, duplicate-free, the element of `a` wins on equal keys; key function x -> x>>1 (different elements may share a key)" bounds="|a|,|b| <= 3, elements 0..=15"
+set_op!(set_union_keyf, builtin_set_union, "setUnion", |ea, eb| ea.or(eb), KeyF::Half);
+//@harness name=set_inter tier=quick timeout=1200 unwind=18 desc="std.setInter: the elements of `a` whose key occurs in `b`; identity key" bounds="|a|,|b| <= 3, elements 0..=15"
+set_op!(set_inter, builtin_set_inter, "setInter", |ea, eb| if eb.is_some() { ea } else { None }, KeyF::Identity);
+//@harness name=set_inter_keyf tier=quick timeout=1200 unwind=18 desc="std.setInter: the elements of `a` whose key occurs in `b`; key function x -> x>>1 (different elements may share a key)" bounds="|a|,|b| <= 3, elements 0..=15"
+set_op!(set_inter_keyf, builtin_set_inter, "setInter", |ea, eb| if eb.is_some() { ea } else { None }, KeyF::Half);
+//@harness name=set_diff tier=quick timeout=1200 unwind=18 desc="std.setDiff: the elements of `a` whose key does not occur in `b`; identity key" bounds="|a|,|b| <= 3, elements 0..=15"
+set_op!(set_diff, builtin_set_diff, "setDiff", |ea, eb| if eb.is_none() { ea } else { None }, KeyF::Identity);
+//@harness name=set_diff_keyf tier=quick timeout=1200 unwind=18 desc="std.setDiff: the elements of `a` whose key does not occur in `b`; key function x -> x>>1 (different elements may share a key)" bounds="|a|,|b| <= 3, elements 0..=15"
+set_op!(set_diff_keyf, builtin_set_diff, "setDiff", |ea, eb| if eb.is_none() { ea } else { None }, KeyF::Half);
 
 // ---------------------------------------------------------------------------------------------
 // std.removeAt
